@@ -3,6 +3,8 @@ package props
 import (
 	"bytes"
 	stdjson "encoding/json"
+	"fmt"
+	"runtime"
 	"strings"
 
 	gojson "github.com/goccy/go-json"
@@ -189,8 +191,12 @@ func c18Check(c *rt.Ctx, sub int, b []byte) {
 			pan, msg, frame := rt.Guard(func() { gerr = o.gof(&gb, b) })
 			c.Eval(1)
 			if pan {
-				c.Obs("panics_seen_judged_by_C06", 1)
-				_, _ = msg, frame
+				// neither a result nor an error
+				if frame == "" {
+					frame = "no-gojson-frame"
+				}
+				c.Violate(rt.Violation{Monitor: "util-reject", Entry: entry, Kind: "panic:" + rt.PanicClass(msg), Ctx: frame,
+					Detail: o.name + " panicked on a " + fmt.Sprint(len(b)) + "-byte text " + rt.Q(b) + ": " + msg, Input: string(b), Sub: sub})
 				continue
 			}
 			serr := o.stdf(&sb, b)
@@ -377,6 +383,70 @@ func c18Nested(open, close string, depth int, leaf string) []byte {
 	return []byte(strings.Repeat(open, depth) + leaf + strings.Repeat(close, depth))
 }
 
+// c18EdgeLens are text lengths around the capacities of the pooled scratch buffer the utilities
+// copy their input into (1024 for a fresh context, then whatever append grows it to).
+var c18EdgeLens = []int{1019, 1020, 1021, 1022, 1023, 1024, 1025, 2045, 2046, 2047, 2048, 2301, 2302, 2303, 2685, 2686, 2687, 3069, 3070, 3071, 4093, 4094, 4095, 4096}
+
+// c18SizeEdge: texts of exactly L bytes that end inside (or right behind) a token, padded in
+// front, with the pools emptied before some of the calls so that both fresh and grown scratch
+// buffers are met.
+func c18SizeEdge(c *rt.Ctx, L int) {
+	const bs = "\\"
+	endings := []string{"t", "tr", "tru", "true", "f", "fa", "fal", "fals", "false", "n", "nu", "nul", "null", "-", "1", "1.", "1e", "1e+", `"`, `"a`, `"\\`, `"\\u`, `"\\u00`, `"\\u00e`, `"\\ud83d`, `"\\ud83d\\`, "[", "[1,", "{", `{"a"`, `{"a":`, `{"a":1,`, "]", "}", " "}
+	for _, tail := range []string{"", "u", "u0", "u00", "u00e", "ud83d", "n", "ud83d" + bs, "ud83d" + bs + "u", "ud83d" + bs + "ude0"} {
+		endings = append(endings, `"`+bs+tail)
+	}
+	pads := []func(n int) string{
+		func(n int) string { return strings.Repeat(" ", n) },
+		func(n int) string {
+			if n < 1 {
+				return ""
+			}
+			return "[" + strings.Repeat(" ", n-1)
+		},
+		func(n int) string {
+			if n < 4 {
+				return strings.Repeat(" ", n)
+			}
+			return `["` + strings.Repeat("p", n-4) + `",`
+		},
+		func(n int) string {
+			if n < 6 {
+				return strings.Repeat(" ", n)
+			}
+			return `{"k` + strings.Repeat("k", n-6) + `":`
+		},
+	}
+	sub := 0
+	for ei, end := range endings {
+		for pi, pad := range pads {
+			if L < len(end) {
+				continue
+			}
+			text := []byte(pad(L-len(end)) + end)
+			if len(text) != L {
+				continue
+			}
+			switch (ei + pi) % 3 {
+			case 0:
+				// fresh pooled contexts
+				runtime.GC()
+				runtime.GC()
+			case 1:
+				// a context grown by a larger text first
+				var w bytes.Buffer
+				rt.Guard(func() { gojson.Compact(&w, []byte("["+strings.Repeat("1,", L)+"1]")) })
+			}
+			c18Check(c, sub, text)
+			sub++
+		}
+	}
+	c.NonTrivialEnum(int64(sub))
+	c.Obs("size_edge_texts", int64(sub))
+	c.SetAdd("size_edge_lengths", fmt.Sprint(L))
+	c.Sample(map[string]any{"family": "size-edge", "length": L, "texts": sub})
+}
+
 func init() {
 	const mutQuick, mutThorough = 40, 600
 	register(&Prop{
@@ -384,9 +454,9 @@ func init() {
 		NumBatches: func(tier string, seed int64) int {
 			n := len(Alphabet28)
 			if tier == "thorough" {
-				return 1 + n*n + mutThorough + 1
+				return 1 + n*n + mutThorough + 1 + len(c18EdgeLens)
 			}
-			return 1 + n*n + mutQuick + 1
+			return 1 + n*n + mutQuick + 1 + len(c18EdgeLens)
 		},
 		Run: func(c *rt.Ctx) {
 			n := len(Alphabet28)
@@ -464,6 +534,8 @@ func init() {
 				}
 				c.Obs("generated_docs", 1)
 				c.Sample(map[string]any{"family": "generated+mutants", "base": string(doc), "cases": sub})
+			case c.Idx > n*n+nmut+1:
+				c18SizeEdge(c, c18EdgeLens[c.Idx-(n*n+nmut+2)])
 			default:
 				// nesting up to and across encoding/json's depth limit
 				sub := 0
